@@ -518,6 +518,22 @@ def _run(ctx):
             ctx.ob("C03.dispatch", "patch code %d" % x["code"], got == [x["name"]], "decodes to %s (ESRI %s)" % (got, x["name"]),
                    site=ctx.site_of(F, pf[0]["def"]), key="C03.dispatch|patch|%d" % x["code"])
         ok = excl is not None and set(excl) == set(x["code"] for x in sp["patch_types"]) and all(is_agg(p.ret, None, 'None') for p in dflt)
+        if not ok:
+            # the refusal may be spelled as a range test (`(0..=5).contains(&code)`): decide it by evaluating each path's tests
+            def feasible(p, val):
+                for t, c in p.cons:
+                    x = absint.eval_with(t, {('param', 1): val})
+                    if x is None:
+                        return None
+                    if not ((x == c) if isinstance(c, int) else (x not in c[1]) if isinstance(c, tuple) and c and c[0] == 'not' else False):
+                        return False
+                return True
+            valid = [x["code"] for x in sp["patch_types"]]
+            nones = [p for p in ps if p.status == 'return' and is_agg(p.ret, None, 'None')]
+            somes = [p for p in ps if p.status == 'return' and is_agg(p.ret, None, 'Some')]
+            ok = bool(nones) and all(feasible(p, v) is False for p in nones for v in valid) and \
+                all(any(feasible(p, v) is True for p in nones) and all(feasible(p, v) is False for p in somes)
+                    for v in (-1, max(valid) + 1, max(valid) + 2, 255, 256, 2 ** 31 - 1, -2 ** 31))
         ctx.ob("C03.dispatch", "other patch codes", ok, "every other value is refused", site=ctx.site_of(F, pf[0]["def"]), key="C03.dispatch|patch|other")
         pr = [g for g in F.identity_fns() if g["def"].endswith("PatchType::read_from")]
         if pr:
